@@ -153,6 +153,11 @@ func runC11(r *vf.Run) {
 								v = fmt.Sprint(rng.Intn(20))
 							}
 							curArgs[i], curStr[i] = v, v
+							if rng.Intn(4) == 0 {
+								// integer arguments of any size and sign bind as their decimal text
+								n := []int64{-1, -5, 0, 1 << 31, 1<<31 - 1, 1 << 32, 1<<63 - 1, -1 << 63, 1234567890123}[rng.Intn(9)]
+								curArgs[i], curStr[i] = n, fmt.Sprint(n)
+							}
 						}
 					}
 				}
